@@ -80,8 +80,10 @@ var stateInvariants []*Axiom
 
 // TypeContract bounds the methods promoted onto *T from embedded fields.
 type TypeContract struct {
-	Type    string
-	Allowed []string
+	Type        string
+	Allowed     []string
+	Declared    []string
+	HasDeclared bool
 }
 
 var typeContracts []TypeContract
@@ -398,6 +400,17 @@ func parseContracts(path string, unit string) (map[string]*Contract, error) {
 				return nil, fmt.Errorf("%s:%d: expected `type T promotes M1, M2, ...`", path, ln)
 			}
 			tc := TypeContract{Type: strings.TrimSpace(parts[0])}
+			// optional second list: `... declares W1, W2`: the methods declared on the type itself are at most these (a
+			// writer wrapper whose every way to the client is under contract: a new ReadFrom/WriteString is a new way)
+			if dp := strings.SplitN(parts[1], " declares", 2); len(dp) == 2 {
+				parts[1] = dp[0]
+				tc.HasDeclared = true
+				for _, m := range strings.Split(dp[1], ",") {
+					if m = strings.TrimSpace(m); m != "" {
+						tc.Declared = append(tc.Declared, m)
+					}
+				}
+			}
 			for _, m := range strings.Split(parts[1], ",") {
 				if m = strings.TrimSpace(m); m != "" {
 					tc.Allowed = append(tc.Allowed, m)
